@@ -9,6 +9,7 @@ CONSTANTS
   MaxAdds = 3
   MaxEnds = 0
   AtomicAdd = FALSE
+  ClosedRefuses = TRUE
   SplitGet = TRUE
   RecheckOnStore = TRUE
   StaleTimers = FALSE
